@@ -15,8 +15,8 @@ E2 = "E2 stateright product search (rmc)"
 
 prop("C13", True, "model_checking",
      "explicit-state BFS (stateright) over real ControlPoints x linear-scan reference, all add-histories to a depth bound",
-     "Every sequence of add operations over the alphabet up to the completed depth is executed on the real collection; after every transition the four lists and all four lookups at 11 probe times are compared with a linear-scan reference. States are deduplicated on the full Debug snapshot of both halves plus depth.",
-     "Trusted: the 60-line linear-scan reference; 64-bit fingerprints; times outside the alphabet (e.g. -0.0, NaN) are not covered.",
+     "Every sequence of add operations over the alphabet up to the completed depth is executed on the real collection; after every transition the four lists and all four lookups at 16 probe times are compared with a linear-scan reference. States are deduplicated on the full Debug snapshot of both halves plus depth.",
+     "Trusted: the 60-line linear-scan reference; 64-bit fingerprints; times outside the alphabets (NaN, infinities) are not covered.",
      "DESIGN.md 3/C13", E2)
 
 prop("C12", True, "model_checking",
@@ -39,14 +39,14 @@ prop("C16", True, "model_checking",
 
 prop("C17", True, "model_checking",
      "exhaustive integer-grid enumeration per segment type against exact curves evaluated in f64 (symmetric Hausdorff distance)",
-     "Every three-point arc, bezier (2-6 points), Catmull (2-4 points), linear and two-segment combination of the stated grids x scales is computed by the real code and compared with the exact curve; fallbacks, segment ends and joint de-duplication are checked on every shape.",
+     "Every three-point arc, bezier (2-6 points), Catmull (2-4 points), linear, untyped and two-segment combination of the stated grids x scales, plus densely anchored beziers and almost straight arcs near and far from the origin, is computed by the real code and compared with the exact curve; fallbacks, segment ends and joint de-duplication are checked on every shape.",
      "Trusted: f64 reference curves and the bounds derived from the tolerance constants (bezier 0.25, arc 0.4, Catmull sampling bound, +6 px in osu mode) plus f32 slack.",
      "DESIGN.md 3/C17", E1)
 
 prop("C18", True, "model_checking",
      "explicit-state BFS (stateright) over histories of curve computations and SliderPath mutations sharing one buffer set; differential oracle vs fresh buffers",
-     "All operation sequences up to the completed depth over {owned/borrowed computation of each pool entry x length, three cached getters, push/pop/overwrite, set length, clear cache}; every curve returned must be bit-identical to a computation with fresh buffers for the current inputs.",
-     "Trusted: Debug snapshots as complete state keys; the pool of seven control-point lists and three lengths.",
+     "All operation sequences up to the completed depth over {owned/borrowed computation of each pool entry x length, three cached getters, push/pop/overwrite, set length, clear cache, clone_from another path}, plus every ordered pair of curves copied over one another; every curve returned must be bit-identical to a computation with fresh buffers for the current inputs.",
+     "Trusted: Debug snapshots as complete state keys; the pool of nine control-point lists and four lengths.",
      "DESIGN.md 3/C18", E2)
 
 prop("C19", True, "model_checking",
